@@ -634,9 +634,33 @@ func ruleMapOrder(c *Ctx) *RuleResult {
 						continue
 					}
 				}
+				// a helper used only by those three places shares their licence
+				if fn != c.A.Exec {
+					sites, okAll := 0, true
+					for _, caller := range allFuncs(c.SLib) {
+						for _, cs := range callsTo(caller, fn) {
+							sites++
+							_, ex := exemptFn[caller]
+							if caller == c.A.Exec {
+								if cl := c.A.ExecSw.clauseAt(instrPos(cs)); cl != nil && cl.has("ASTValueProjection") {
+									ex = true
+								}
+							}
+							if !ex {
+								okAll = false
+							}
+						}
+					}
+					if sites > 0 && okAll {
+						r.ok(key, pos, fname(fn), "called only from keys()/values()/the object wildcard, whose order is unspecified by the property")
+						continue
+					}
+				}
 				// order-insensitive body: the loop only does fresh[k] = v
 				if c.rangeOnlyCopies(rg) {
 					r.ok(key, pos, fname(fn), "loop body only stores each entry under its own key into a map allocated in this function: the result does not depend on iteration order")
+				} else if c.rangeIsQuantifier(rg) {
+					r.ok(key, pos, fname(fn), "the loop carries nothing from one entry to the next, writes nothing, and leaves early only with constant results (a for-all / exists test): the result does not depend on iteration order")
 				} else {
 					r.viol(key, pos, fname(fn), "the result of this map iteration can depend on Go's random map order, outside keys()/values()/object wildcard")
 				}
@@ -682,6 +706,54 @@ func (c *Ctx) rangeOnlyCopies(rg *ssa.Range) bool {
 			case *ssa.Jump, *ssa.Extract, *ssa.DebugRef:
 			default:
 				return false
+			}
+		}
+	}
+	return true
+}
+
+// rangeIsQuantifier: the map loop is a for-all / exists test: no value is
+// carried from one iteration to the next (the loop head has no phi), the body
+// stores nothing and appends nothing, and every return inside the loop yields
+// only constants. Whatever order the entries come in, the outcome is the same.
+func (c *Ctx) rangeIsQuantifier(rg *ssa.Range) bool {
+	var next *ssa.Next
+	for _, rf := range *rg.Referrers() {
+		if n, ok := rf.(*ssa.Next); ok {
+			next = n
+		}
+	}
+	if next == nil {
+		return false
+	}
+	head := next.Block()
+	for _, in := range head.Instrs {
+		if _, isPhi := in.(*ssa.Phi); isPhi {
+			return false
+		}
+	}
+	if blockIf(head) == nil {
+		return false
+	}
+	body := head.Succs[0]
+	for bb := range reachableFrom(body, map[*ssa.BasicBlock]bool{head: true}) {
+		if !head.Dominates(bb) {
+			continue
+		}
+		for _, in := range bb.Instrs {
+			switch in := in.(type) {
+			case *ssa.Store, *ssa.MapUpdate, *ssa.Send, *ssa.Go, *ssa.Defer:
+				return false
+			case *ssa.Call:
+				if bi, ok := in.Call.Value.(*ssa.Builtin); ok && bi.Name() == "append" {
+					return false
+				}
+			case *ssa.Return:
+				for _, res := range retResults(in) {
+					if _, isConst := res.(*ssa.Const); !isConst {
+						return false
+					}
+				}
 			}
 		}
 	}
